@@ -17,7 +17,7 @@ const DATA: u32 = 0x430200;
 const CELL: u32 = 0x430300;
 const STACK: u32 = 0x4f0000;
 
-pub const ALPHABET: [&str; 23] = [
+pub const ALPHABET: [&str; 26] = [
     "cmd:pause",
     "cmd:start",
     "cmd:stop",
@@ -28,6 +28,9 @@ pub const ALPHABET: [&str; 23] = [
     "u8:fee000:ff",
     "ioport:1:f0",
     "ioport:b:a5",
+    "ioport:5:3c",
+    "u8:ffd000:44",
+    "u8:ff:55",
     "ioport:0:1",
     "ioport:c:1",
     "",
@@ -53,6 +56,8 @@ pub struct Proto {
     pub cells: [u8; 4],
     pub pins: [u8; 11],
     pub p1ddr: u8,
+    pub ram_cell: u8,
+    pub vec_cell: u8,
 }
 
 impl Proto {
@@ -74,6 +79,10 @@ impl Proto {
                         self.cells[(a - CELL) as usize] = v;
                     } else if a == 0xfee000 {
                         self.p1ddr = v;
+                    } else if a == 0xffd000 {
+                        self.ram_cell = v;
+                    } else if a == 0xff {
+                        self.vec_cell = v;
                     }
                     // other addresses used by the alphabet are unmapped: ignored
                 }
@@ -117,6 +126,8 @@ impl Rig {
             cpu.bus.dram[(a - 0x400000) as usize] = 0;
         }
         cpu.bus.io_registrs1[0] = 0;
+        cpu.bus.memory[(0xffd000 - 0xffbf20) as usize] = 0;
+        cpu.bus.exception_handling_vector[0xff] = 0;
         cpu.bus.io_registrs2[0xb0] = 0;
         cpu.bus.io_port_in = [0; crate::bus::IO_PORT_SIZE];
         cpu.bus.io_port_latch = [0; crate::bus::IO_PORT_SIZE];
@@ -138,6 +149,8 @@ pub struct Obs {
     pub cells: [u8; 4],
     pub pins: [u8; 11],
     pub p1ddr: u8,
+    pub ram_cell: u8,
+    pub vec_cell: u8,
     /// cumulative state count seen at the top of each loop iteration
     pub progress: Vec<usize>,
     pub result: String,
@@ -176,6 +189,8 @@ pub fn run_batches(rig: &mut Rig, batches: &[Vec<&str>], at: &[usize], horizon: 
         cells,
         pins: rig.cpu.bus.io_port_in,
         p1ddr: rig.cpu.bus.io_registrs1[0],
+        ram_cell: rig.cpu.bus.memory[(0xffd000 - 0xffbf20) as usize],
+        vec_cell: rig.cpu.bus.exception_handling_vector[0xff],
         progress,
         result: match r {
             Ok(()) => "ok".into(),
@@ -204,6 +219,9 @@ pub fn judge(seq: &[&str], batches: &[Vec<&str>], at: &[usize], o: &Obs, horizon
     }
     if o.p1ddr != p.p1ddr {
         return Some(format!("P1DDR {:02x}, reference {:02x}", o.p1ddr, p.p1ddr));
+    }
+    if o.ram_cell != p.ram_cell || o.vec_cell != p.vec_cell {
+        return Some(format!("bytes stored by u8 lines in on-chip RAM / vector area: {:02x}/{:02x}, reference {:02x}/{:02x}", o.ram_cell, o.vec_cell, p.ram_cell, p.vec_cell));
     }
     if !p.stopped {
         // paused / running status at the horizon: progress over the last three iterations
@@ -393,7 +411,7 @@ fn framing_unit(maxlen: usize) -> Unit {
         let (sock, mut stream) = match connect_pair(0) {
             Some(x) => x,
             None => {
-                ctx.custom_violation("c18", "MACHINERY: could not establish a loopback connection".into(), json!({}), json!(null), json!(null));
+                ctx.machinery("could not establish a loopback connection".into());
                 return;
             }
         };
@@ -508,7 +526,7 @@ pub fn c18(tier: Tier, _seed: u64) -> Prop {
             "every OS-thread schedule of the receive worker appears to run() as some partition of the line sequence into per-iteration batches (the only shared object is an mpsc channel drained by try_iter), so enumerating partitions covers the schedules as far as the property can observe them".into(),
             "the instant at which a line takes effect (which loop iteration) is timing, not constrained; pause edges are checked with one instruction of slack".into(),
             "the TCP part samples OS schedules (inputs are enumerated); non-UTF-8 input bytes are outside the alphabet".into(),
-            "bounds: sequences <= 3 over 23 lines, <= 5 over a 6-line alphabet (quick); <= 4 / <= 7 (thorough)".into(),
+            "bounds: sequences <= 3 over 26 lines, <= 5 over a 6-line alphabet (quick); <= 4 / <= 7 (thorough)".into(),
         ],
         units,
         extra: Box::new(|m| {
